@@ -168,6 +168,7 @@ def splice_fn(s, name, impl, spec):
 # ------------------------------------------------------------------------------------------------
 FORCED = set()      # 'Type::fn' / 'fn' names to stub in the next build
 LOST = {}           # name -> reason
+NODEC_FORCED = {}   # name -> reason: a loop without `decreases` appeared in the function: its termination is not claimed in this run
 
 
 def splice_fn_safe(s, name, impl, spec):
@@ -179,6 +180,9 @@ def splice_fn_safe(s, name, impl, spec):
         return splice_fn(s, name, impl, sp)
     if key in FORCED:
         return stub(LOST.get(key, 'unsupported construct'))
+    if key in NODEC_FORCED:
+        spec = dict(spec or {})
+        spec['attrs'] = list(spec.get('attrs', [])) + ['#[verifier::exec_allows_no_decreases_clause]']
     try:
         return splice_fn(s, name, impl, spec)
     except AnchorLost as e:
@@ -247,7 +251,7 @@ def build_and_verify(scratch, kind='parser'):
     import verus_specs
     import verus_parser
     res = dict(anchor_lost=None)
-    FORCED.clear(); LOST.clear()
+    FORCED.clear(); LOST.clear(); NODEC_FORCED.clear()
     vdir = os.path.join(os.path.dirname(scratch), 'verus')
     os.makedirs(vdir, exist_ok=True)
     path = os.path.join(vdir, kind + '_v.rs')
@@ -281,9 +285,14 @@ def build_and_verify(scratch, kind='parser'):
         if not new:
             break
         for f in new:
+            if 'must have a decreases clause' in offenders[f] and f not in NODEC_FORCED:
+                # a loop the contract table does not know: keep checking the function's other clauses, drop its termination claim
+                NODEC_FORCED[f] = 'a loop without a decreases clause appeared in this function: termination is not proved in this run'
+                continue
             FORCED.add(f)
             LOST[f] = 'Verus cannot take this function as extracted (kept as external_body with its contract): ' + offenders[f]
     res['lost'] = dict(LOST)
+    res['nodec'] = dict(NODEC_FORCED)
     res.update(text=text, shas=shas, out=r['out'], json=r['json'], cmd=r['cmd'], wall=r['wall'], rc=r['rc'], path=path)
     # assumption scan
     assumes = re.findall(r'\bassume\s*\([^;]*;(?:\s*/\*[^*]*\*/)?', text)
@@ -386,6 +395,12 @@ def run_kind(kind, vobl, prop, results, undecided, violations, checker_cmds, ass
             continue
         errs = res['errors_by_fn'].get(fn, [])
         label = o.get('label')
+        nodec = res.get('nodec', {})
+        if st['ok'] and o.get('label') is None and (fn in nodec or fn.split('::')[-1] in nodec):
+            # panic freedom / frame verified, but termination could not be stated for a loop that is not in the contract table
+            results[o['id']] = dict(status='undecided', detail=nodec.get(fn, nodec.get(fn.split('::')[-1])))
+            undecided.append(o['id'])
+            continue
         if st['ok']:
             results[o['id']] = dict(status='discharged', time=st['ms'] / 1000.0, detail=f"rlimit {st['rlimit']}")
         else:
